@@ -4,6 +4,7 @@ import (
 	"bytes"
 	"fmt"
 	"regexp"
+	"strconv"
 	"strings"
 
 	"verif/ref"
@@ -247,6 +248,166 @@ func countBlocks(bs []*ref.Block, counts map[string]int) {
 	}
 }
 
+// ---- list shapes (exploration vi) ------------------------------------------------------
+
+func listShape(x *X, depth int, budget *int, top bool) *ref.Block {
+	p := func(s string) *ref.Block { return &ref.Block{Kind: ref.BPara, Inl: []ref.Inl{word(s)}} }
+	b := &ref.Block{Kind: ref.BBullet, Start: 1}
+	if x.ChooseFree(2) == 1 {
+		b.Kind = ref.BOrdered
+		if top && x.ChooseFree(2) == 1 {
+			b.Start = 7
+		}
+	}
+	b.Tight = x.ChooseFree(2) == 0
+	n := 1 + x.ChooseFree(2)
+	for i := 0; i < n; i++ {
+		*budget -= 2
+		if *budget < 0 {
+			return nil
+		}
+		it := []*ref.Block{p([]string{"one", "two"}[i])}
+		if depth > 0 && x.ChooseFree(2) == 1 {
+			sub := listShape(x, depth-1, budget, false)
+			if sub == nil {
+				return nil
+			}
+			it = append(it, sub)
+		}
+		if !b.Tight && x.ChooseFree(2) == 1 {
+			*budget--
+			it = append(it, p("tail"))
+		}
+		b.Items = append(b.Items, it)
+	}
+	return b
+}
+
+// ---- escaped link attributes (exploration vii) ------------------------------------------
+
+func escAllPunct(s string) string {
+	var sb strings.Builder
+	for i := 0; i < len(s); i++ {
+		if strings.IndexByte("!\"#$%&'()*+,-./:;<=>?@[\\]^_`{|}~", s[i]) >= 0 {
+			sb.WriteByte('\\')
+		}
+		sb.WriteByte(s[i])
+	}
+	return sb.String()
+}
+
+// c06Attr: lit as title (quote style q) or destination of a link / image / definition.
+func c06Attr(x *X, lit string, q, where int) {
+	esc := escAllPunct(lit)
+	open, closeq := []string{"\"", "'", "("}[q], []string{"\"", "'", ")"}[q]
+	title := open + esc + closeq
+	dest := esc
+	if strings.Contains(lit, " ") {
+		dest = "<" + esc + ">"
+	}
+	if strings.TrimSpace(lit) != lit && where < 3 {
+		// a title may begin or end with a space; keep it, it is literal
+		_ = lit
+	}
+	var src string
+	var doc []*ref.Block
+	p := func(in ...ref.Inl) []*ref.Block { return []*ref.Block{{Kind: ref.BPara, Inl: in}} }
+	switch where {
+	case 0:
+		src = "[a](/u " + title + ")\n"
+		doc = p(ref.Inl{Kind: ref.ILink, Kids: []ref.Inl{word("a")}, Dest: "/u", Title: lit, HasT: true})
+	case 1:
+		src = "![a](/u " + title + ")\n"
+		doc = p(ref.Inl{Kind: ref.IImage, Kids: []ref.Inl{word("a")}, Dest: "/u", Title: lit, HasT: true})
+	case 2:
+		src = "[a]\n\n[a]: /u " + title + "\n"
+		doc = append(p(ref.Inl{Kind: ref.IRefShortcut, Text: "a"}), &ref.Block{Kind: ref.BRefDef, Label: "a", Dest: "/u", Title: lit, HasT: true})
+	case 3:
+		src = "[a](" + dest + ")\n"
+		doc = p(ref.Inl{Kind: ref.ILink, Kids: []ref.Inl{word("a")}, Dest: lit})
+	case 4:
+		src = "![a](" + dest + " \"t\")\n"
+		doc = p(ref.Inl{Kind: ref.IImage, Kids: []ref.Inl{word("a")}, Dest: lit, Title: "t", HasT: true})
+	default:
+		src = "[a]\n\n[a]: " + dest + "\n"
+		doc = append(p(ref.Inl{Kind: ref.IRefShortcut, Text: "a"}), &ref.Block{Kind: ref.BRefDef, Label: "a", Dest: lit})
+	}
+	in := []byte(src)
+	want := ref.Norm(ref.Denote(doc))
+	blocks, refs := cm.Parse(clone(in))
+	got := ref.Norm(renderCfg(blocks, refs, cm.SoftBreakPreserve, false))
+	x.Validated()
+	if got != want {
+		x.Fail("html-differs-from-denotation", "escaped-attribute", in, "document %q renders (normalized) %q; with every punctuation character escaped the attribute is the literal text %q, so the denotation is %q", src, got, lit, want)
+		return
+	}
+	x.Nontrivial()
+	x.Outcome(tree.Hash64(want))
+	x.Sample(q2(in))
+}
+
+func q2(in []byte) string { return q(in) }
+
+// ---- numeric character references (exploration viii) --------------------------------------
+
+func c06NumRef(x *X) {
+	hex := x.ChooseFree(2) == 1
+	maxDigits, limit := 8, 7
+	vals := []string{"35", "228", "1114111"}
+	prefix := "&#"
+	if hex {
+		maxDigits, limit = 7, 6
+		vals = []string{"23", "E4", "e4", "10FFFF", "10ffff"}
+		prefix = []string{"&#x", "&#X"}[x.ChooseFree(2)]
+	}
+	v := vals[x.ChooseFree(len(vals))]
+	k := 1 + x.ChooseFree(maxDigits)
+	if k < len(v) {
+		return
+	}
+	r := prefix + strings.Repeat("0", k-len(v)) + v + ";"
+	isRef := k <= limit
+	lit := r
+	if !isRef {
+		lit = "&amp;" + r[1:]
+	}
+	var src, want string
+	switch x.ChooseFree(3) {
+	case 0:
+		src = "a " + r + " b\n"
+		want = "<p>a " + lit + " b</p>"
+	case 1:
+		// attribute text is decoded (the three values need no escaping)
+		src = "[a](/u \"" + r + "\")\n"
+		dec := lit
+		if isRef {
+			base := 10
+			if hex {
+				base = 16
+			}
+			cp, _ := strconv.ParseInt(v, base, 32)
+			dec = string(rune(cp))
+		}
+		want = "<p><a href=\"/u\" title=\"" + dec + "\">a</a></p>"
+	default:
+		// info string: the first word becomes the class; a reference is decoded
+		// there, so only compare the recognised / literal distinction through text.
+		src = "x" + r + "y\n"
+		want = "<p>x" + lit + "y</p>"
+	}
+	in := []byte(src)
+	blocks, refs := cm.Parse(clone(in))
+	got := ref.Norm(renderCfg(blocks, refs, cm.SoftBreakPreserve, false))
+	x.Validated()
+	if got != ref.Norm(want) {
+		x.Fail("html-differs-from-denotation", "numeric-reference", in, "document %q renders (normalized) %q; %q has %d digits (limit %d), so the denotation is %q", src, got, r, k, limit, want)
+		return
+	}
+	x.Nontrivial()
+	x.Outcome(tree.Hash64(want))
+	x.Sample(q(in))
+}
+
 // ---- deep nesting (exploration v) -----------------------------------------------------
 
 func deepNesting(x *X, maxDepth int) []*ref.Block {
@@ -451,6 +612,41 @@ func init() {
 				}
 				c06Compare(x, wrapContext(ctx, leaf), c06Contexts[ctx])
 			})
+			ld := c.Pick(2, 2)
+			c.Explore("list-shapes", fmt.Sprintf("every tree of nested lists up to %d levels below the top list: bullet/ordered x tight/loose x 1-2 items, each item a paragraph, optionally a sub-list, optionally (loose) a trailing paragraph; optionally a paragraph after the list; x spelling deviations <=%d", ld, dev), dev, 0, func(x *X) {
+				budget := 9
+				l := listShape(x, ld, &budget, true)
+				if l == nil {
+					return
+				}
+				doc := []*ref.Block{l}
+				if x.ChooseFree(2) == 1 {
+					doc = append(doc, &ref.Block{Kind: ref.BPara, Inl: []ref.Inl{word("after")}})
+				}
+				if r := validSkeleton(doc); r != "" {
+					x.Count("skeleton_invalid: " + r)
+					return
+				}
+				c06Compare(x, doc, "list-shapes")
+			})
+			c.Explore("escaped-link-attributes", "every text of <=3 characters over {a, space, 32 ASCII punctuation characters} with every punctuation character backslash-escaped, as title (3 quote styles) and as destination (bare / in angle brackets) of an inline link, an image and a reference definition", -1, 3, func(x *X) {
+				const chars = "a !\"#$%&'()*+,-./:;<=>?@[\\]^_`{|}~"
+				var lit []byte
+				for i := 0; i < 3; i++ {
+					k := x.ChooseFree(len(chars) + 1)
+					if k == 0 {
+						break
+					}
+					lit = append(lit, chars[k-1])
+				}
+				if len(lit) == 0 {
+					return
+				}
+				c06Attr(x, string(lit), x.ChooseFree(3), x.ChooseFree(6))
+			})
+			c.Explore("numeric-references", "decimal references with 1..8 digits and hexadecimal references with 1..7 digits (values # / a-umlaut / U+10FFFF, zero-padded, both letter cases), in paragraph text, in a link title and in a code fence info string: up to 7 decimal / 6 hexadecimal digits are a character reference, longer ones are literal text", -1, 0, func(x *X) {
+				c06NumRef(x)
+			})
 			depth := c.Pick(5, 6)
 			c.Explore("deep-nesting", fmt.Sprintf("every chain of <=%d nested containers from {block quote, tight bullet item, loose bullet item with a second paragraph, ordered item, second item of a tight list} around each of 7 leaf blocks, x spelling deviations <=%d", depth, dev), dev, depth, func(x *X) {
 				doc := deepNesting(x, depth)
@@ -586,6 +782,21 @@ func c20SecondImpl(c *Ctx) {
 		ctx := x.ChooseFree(len(c06Contexts))
 		doc := append(wrapContext(ctx, &ref.Block{Kind: ref.BPara, Inl: seq}), refDefs()...)
 		c20Roundtrip(x, doc, c06Contexts[ctx])
+	})
+	c.Explore("canonical-list-shapes", "S_fmt trees of nested lists (bullet/ordered x tight/loose x 1-2 items, sub-lists, trailing paragraphs) in the canonical spelling", 0, 0, func(x *X) {
+		budget := 9
+		l := listShape(x, 2, &budget, true)
+		if l == nil {
+			return
+		}
+		doc := []*ref.Block{l}
+		if x.ChooseFree(2) == 1 {
+			doc = append(doc, &ref.Block{Kind: ref.BPara, Inl: []ref.Inl{word("after")}})
+		}
+		if validSkeleton(doc) != "" {
+			return
+		}
+		c20Roundtrip(x, doc, "list-shapes")
 	})
 	depth := c.Pick(5, 6)
 	c.Explore("canonical-deep-nesting", fmt.Sprintf("S_fmt chains of <=%d nested containers around each leaf block, canonical spelling", depth), 0, depth, func(x *X) {
